@@ -564,7 +564,7 @@ def run_processes(ctx, hist, r, split, use_pool, det0, pool_first=False, continu
         seen = set(st.subjectnames)
     except Exception as e:  # noqa: BLE001
         seen = None
-        if any(c[0] == "eval" for calls in hist.values() for c in calls):
+        if any(c[0] == "eval" and not str(c[1]).startswith("bad") for calls in hist.values() for c in calls):
             ctx.viol("make_statistic_raised_although_rows_were_complete", dict(det, exc=repr(e)[:200], where="parent after all workers returned"), features=dict(feats, kind="make_statistic_raised_although_rows_were_complete"))
             return
     want = {c[1] for calls in hist.values() for c in calls if c[0] == "eval" and not c[1].startswith("bad")}
